@@ -240,6 +240,9 @@ class Generator(ABC):
 
         def comment_filter(content: str):
             output = ""
+            if self.comment_end_string is not None:
+                # the documentation text must not be able to terminate the generated block comment
+                content = content.replace(self.comment_end_string.strip(), "*&#47;")
             if self.comment_start_string is not None:
                 output += f'{self.comment_start_string}\n'
             output += self.comment_line_prefix
